@@ -391,4 +391,89 @@ theorem proc_alternative (k : Kinds) (R : Nat) (b : Body) (kids : List PT) (hk :
       rw [hhead] at hn
       cases hn
 
+/-! ### the dispatch against its clause-by-clause specification -/
+
+theorem isNT_of_isNM {k : Kinds} {x : PT} (h : PT.isNM k x = true) : x.isNT = true := by
+  cases x <;> simp_all [PT.isNM, PT.isNT]
+
+theorem find_none_of_all {p : PT → Bool} {l : List PT} (h : ∀ y ∈ l, p y = false) : l.find? p = none := by
+  rw [List.find?_eq_none]
+  intro y hy
+  simp [h y hy]
+
+theorem find_split {p : PT → Bool} {pre post : List PT} {x : PT} (hpre : ∀ y ∈ pre, p y = false) (hx : p x = true) :
+    (pre ++ x :: post).find? p = some x := by
+  rw [List.find?_append, find_none_of_all hpre]
+  simp [List.find?, hx]
+
+/-- soundness of `proc` for the specification -/
+theorem yields_proc {k : Kinds} {t : PT} {v : Val} (h : Yields k t v) : proc k t = v := by
+  induction h with
+  | term => simp [proc]
+  | asgn => simp [proc]
+  | mtch hk => simp [proc, hk]
+  | common hk => simp [proc, hk]
+  | single hk _ ih => rw [proc_abstr_single _ _ _ hk, ih]
+  | firstNM hk _ hpre hx _ ih => rw [proc_abstr_nm _ _ _ _ hk (find_split hpre hx), ih]
+  | @onlyMatchNT r pre post x v hk hlen hall hpre hx _ ih =>
+    rw [proc_abstr_match_nt _ _ _ _ hk hlen (find_none_of_all hall) (find_split hpre hx), ih]
+  | @text r kids hk hlen hall =>
+    have h1 : kids.find? PT.isNT = none := find_none_of_all hall
+    have h2 : kids.find? (PT.isNM k) = none := by
+      apply find_none_of_all
+      intro y hy
+      cases hnm : PT.isNM k y with
+      | false => rfl
+      | true => have := isNT_of_isNM hnm; rw [hall y hy] at this; cases this
+    simp only [proc, hk, if_neg hlen, procFirst_eq_find, h1, h2, Option.map_none]
+
+mutual
+/-- completeness: `proc` yields a value the specification allows, for every tree -/
+theorem proc_yields (k : Kinds) : ∀ t : PT, Yields k t (proc k t)
+  | .term raw val => by simp only [proc]; exact .term
+  | .asgn a ks => by simp only [proc]; exact .asgn
+  | .nt r kids => by
+    cases hk : k r with
+    | mtch => simp only [proc, hk]; exact .mtch hk
+    | common => simp only [proc, hk]; exact .common hk
+    | abstr =>
+      by_cases hlen : kids.length = 1
+      · match kids, hlen with
+        | [x], _ =>
+          rw [proc_abstr_single k r x hk]
+          exact .single hk (procL_yields k [x] x (by simp))
+      · cases hf : kids.find? (PT.isNM k) with
+        | some x =>
+          rw [proc_abstr_nm k r kids x hk hf]
+          obtain ⟨hx, pre, post, e, hpre⟩ := List.find?_eq_some_iff_append.mp hf
+          subst e
+          exact .firstNM hk hlen (fun y hy => by simpa using hpre y hy) hx
+            (procL_yields k (pre ++ x :: post) x (by simp))
+        | none =>
+          have hall : ∀ y ∈ kids, PT.isNM k y = false := by
+            intro y hy
+            have := List.find?_eq_none.mp hf y hy
+            simpa using this
+          cases hnt : kids.find? PT.isNT with
+          | some x =>
+            rw [proc_abstr_match_nt k r kids x hk hlen hf hnt]
+            obtain ⟨hx, pre, post, e, hpre⟩ := List.find?_eq_some_iff_append.mp hnt
+            subst e
+            exact .onlyMatchNT hk hlen hall (fun y hy => by simpa using hpre y hy) hx
+              (procL_yields k (pre ++ x :: post) x (by simp))
+          | none =>
+            have hallnt : ∀ y ∈ kids, y.isNT = false := by
+              intro y hy
+              have := List.find?_eq_none.mp hnt y hy
+              simpa using this
+            simp only [proc, hk, if_neg hlen, procFirst_eq_find, hf, hnt, Option.map_none]
+            exact .text hk hlen hallnt
+theorem procL_yields (k : Kinds) : ∀ (l : List PT), ∀ x ∈ l, Yields k x (proc k x)
+  | [], x, hx => by cases hx
+  | y :: ys, x, hx => by
+    rcases List.mem_cons.mp hx with h | hx'
+    · rw [h]; exact proc_yields k y
+    · exact procL_yields k ys x hx'
+end
+
 end RuleTypes
